@@ -202,6 +202,30 @@ fn main() {
         }
         return;
     }
+    if id == "sanit" {
+        // single-process slice of the wrapper workloads for valgrind memcheck / ASan
+        util::silence_panics();
+        let n: usize = args.get(3).and_then(|s| s.parse().ok()).unwrap_or(40);
+        let mut rng = Rng::new(20);
+        let mut acc = Acc::default();
+        for i in 0..n {
+            let p = dash::gen_prog(&mut rng, 1 + i % 3);
+            dash::check_prog(&p, [8usize, 2][i % 2], rng.next(), 20, &mut acc, "sanit");
+            let p = plot::gen_prog(&mut rng, 1 + i % 2);
+            plot::check_prog(&p, [8usize, 2][i % 2], rng.next(), 20, &mut acc, "sanit");
+            coll::check_history(rng.next(), 5 + i % 60, &mut acc);
+        }
+        // guards and collected iterator items held while other tasks make the table grow and shrink
+        use dash::DOp::*;
+        let grow: Vec<dash::DOp> = (3..60u8).map(|k| Insert(k, k as i64)).chain((3..60u8).map(Remove)).collect();
+        for holder in [vec![Insert(0, 1), Insert(1, 2), CollectIter, HoldRef(0)], vec![Insert(0, 1), CollectIterMutAdd, HoldMut(0), IterSum], vec![Insert(2, 1), HoldRef(2), CollectIter, RetainEven]] {
+            let p = vec![holder, grow.clone(), vec![Insert(1, 5), Clear, Insert(2, 2)]];
+            dash::check_prog(&p, 8, rng.next(), n, &mut acc, "sanit-grow");
+        }
+        rand_lazy_check(0, 3, 20, &mut acc);
+        println!("SANIT-DONE {}", acc.evaluations);
+        return;
+    }
     let mut tier = std::env::var("VERIF_TIER").unwrap_or_else(|_| "quick".to_string());
     let mut i = 2;
     while i < args.len() {
@@ -219,5 +243,10 @@ fn main() {
     util::silence_panics();
     let mut r = Report::new("C20", &tier, util::seed_from_env());
     c20(&mut r);
+    let n_sanit = if r.quick() { 30 } else { 400 };
+    vcore::checks::sanit::attach(&mut r, "wrappers", n_sanit);
+    if !r.quick() {
+        vcore::checks::sanit::attach_asan(&mut r, "vwrap", "vwrap", "wrappers", 3000);
+    }
     std::process::exit(r.finish());
 }
